@@ -49,11 +49,14 @@ FIRST = [None, "st_Gamma_udd4", "st_Riemann_down4", "st_Riemann_uddd4",
 @st.composite
 def case_strategy(draw, tier):
     kind = draw(st.sampled_from(
-        ["Wp", "Wp", "Wp", "Wn", "F", "KS", "PP", "Wt0"]))
+        ["Wp", "Wp", "Wp", "Wn", "F", "KS", "PP", "Wt0", "KSin", "FL"]))
     c = {}
-    if kind == "Wt0":
+    if kind in ("Wt0", "KSin", "FL"):
+        # Wt0: shift zero on the slice only; KSin: box inside the horizon
+        # (shift larger than the lapse, g_tt > 0); FL: homogeneous, scale
+        # factor O(1) or tiny (determinants down to 1e-17)
         from harness import cases as _cases
-        c = draw(_cases.spacetime_case(kinds=("Wt0",),
+        c = draw(_cases.spacetime_case(kinds=(kind,),
                                        orders_p=(2, 4, 4, 6, 8)))
         Lambda = draw(f(-0.5, 0.5)) if draw(st.booleans()) else 0.0
         c.update(Lambda=Lambda, matter="Tdown4", vacuum=False,
@@ -139,6 +142,12 @@ def generic_cases():
         cases.append(dict(_cases.generic_Wt0(4), Lambda=0.25, form=form,
                           matter="Tdown4", vacuum=False, gdet_first=False,
                           first="st_Gamma_udd4"))
+    cases.append(dict(_cases.generic_KSin(4), Lambda=0.0, form="components",
+                      matter="none", vacuum=False, gdet_first=False))
+    cases.append(dict(_cases.generic_FL_tiny(4), Lambda=0.0, form="components",
+                      matter="Tdown4", vacuum=False, gdet_first=False))
+    cases.append(dict(_cases.generic_FL_tiny(2), Lambda=0.1, form="tensors",
+                      matter="Tdown4", vacuum=False, gdet_first=True))
     return cases
 
 
@@ -194,6 +203,7 @@ def test_case(case, note):
         float(np.max(np.abs(ex1["dtalpha"]))) > 1e-4
     note.nt(nshift >= 2 and lapse and offd > 1e-3 and offk > 1e-4)
     note.cls(f"nshift={nshift}")
+    note.cls(*A.extra_classes(case, ex1))
 
     h2 = min(fd2.dx, fd2.dy, fd2.dz)
     S1 = float(np.max(np.abs(ex2["dg"]))) + 1e-30
@@ -204,7 +214,9 @@ def test_case(case, note):
         for k, ref in (("gdown4", ex["g"]), ("gup4", ex["gup"]),
                        ("gdet", ex["gdet"])):
             e = A.err(o[k], ref)
-            if not e <= 1e-11:
+            # relative to the size of the exact field (metrics with tiny or
+            # huge components are legitimate inputs)
+            if not e <= 1e-11 * float(np.max(np.abs(ref))):
                 br = ("a2gamma" if case.get("gdet_first") else "det4") \
                     if k == "gdet" else ""
                 note.fail(f"{k}:{br}value", dict(err=e))
@@ -213,7 +225,7 @@ def test_case(case, note):
 
     def conv(key, blocks, ref1, ref2, scale, nd):
         scale = max(scale, 1e-2)  # degenerate data: pure round-off
-        floor = 1e-9 * scale * max(1.0, (0.1 / h2) ** nd)
+        floor = 1e-9 * scale * A.cond(ex2) * max(1.0, (0.1 / h2) ** nd)
         a1, a2 = o1[key], o2[key]
         if blocks is None:
             blocks = {"": ()}
@@ -248,7 +260,7 @@ def test_case(case, note):
     # finite-difference Riemann of gamma, whose symmetries only hold up to
     # truncation error, so the defect must converge (or be at round-off).
     R1, R2 = o1["st_Riemann_down4"], o2["st_Riemann_down4"]
-    floor = 1e-9 * max(S2, 1e-2) * max(1.0, (0.1 / h2) ** 2)
+    floor = 1e-9 * max(S2, 1e-2) * A.cond(ex2) * max(1.0, (0.1 / h2) ** 2)
     for nm, es in (("antisym12", 'abcd...->bacd...'),
                    ("antisym34", 'abcd...->abdc...'),
                    ("pairsym", 'abcd...->cdab...')):
@@ -270,6 +282,6 @@ def test_case(case, note):
 
 def subchecks(tier):
     q = tier == "quick"
-    return [Sub("curvature", case_strategy(tier), test_case,
+    return [Sub("curvature", case_strategy(tier), A.asymptotic(test_case),
                 40 if q else 2000, generic=generic_cases(),
                 shards=8 if q else 16, max_rounds=2, shrink_quick=False, pregenerate=True)]
